@@ -157,31 +157,28 @@ func safeSanity(c *blockchain.BlockChain, height uint32, tx interfaces.Transacti
 	return c.CheckTransactionSanity(height, tx) == nil
 }
 
-// preOK recomputes the header checks that come before the transaction part.
-func preOK(c *blockchain.BlockChain, b *types.Block) bool {
+// preClass recomputes the header checks that come before the transaction part and names the first
+// one that fails: auxpow, pow, time, or ok.
+func preClass(c *blockchain.BlockChain, b *types.Block) string {
 	h := b.Header
 	hash := h.Hash()
 	if !h.AuxPow.Check(&hash, auxpow.AuxPowChainID) {
-		return false
+		return "auxpow"
 	}
 	if blockchain.CheckProofOfWork(&h, descParams.PowConfiguration.PowLimit) != nil {
-		return false
+		return "pow"
 	}
 	t := time.Unix(int64(h.Timestamp), 0)
 	if t.After(c.TimeSource.AdjustedTime().Add(time.Second * blockchain.MaxTimeOffsetSeconds)) {
-		return false
+		return "time"
 	}
-	return true
+	return "ok"
 }
 
-func sizeOK(b *types.Block) bool {
-	if uint32(len(b.Transactions)) > pact.MaxTxPerBlock {
-		return false
-	}
-	if b.Header.GetSize() > int(pact.MaxBlockHeaderSize) {
-		return false
-	}
-	return b.GetSize() <= int(pact.MaxBlockContextSize+pact.MaxBlockHeaderSize)
+// sizes of the header and of the block as the node measures them (the limits are in the model)
+func sizes(b *types.Block) string {
+	_ = pact.MaxTxPerBlock
+	return fmt.Sprintf("%d:%d", b.Header.GetSize(), b.GetSize())
 }
 
 func b01(b bool) string {
@@ -192,7 +189,7 @@ func b01(b bool) string {
 }
 
 func describe(c *blockchain.BlockChain, b *types.Block) string {
-	parts := []string{b01(preOK(c, b)), b01(sizeOK(b)), b01(blockchain.CheckDuplicateTx(b) == nil),
+	parts := []string{preClass(c, b), sizes(b), b01(blockchain.CheckDuplicateTx(b) == nil),
 		hex.EncodeToString(b.Header.MerkleRoot[:])}
 	for _, tx := range b.Transactions {
 		parts = append(parts, txDesc(c, b.Height, tx))
@@ -206,13 +203,20 @@ func classify(err error) string {
 	}
 	m := err.Error()
 	switch {
-	case strings.Contains(m, "block check aux pow failed"), strings.Contains(m, "block check proof of work failed"),
-		strings.Contains(m, "higher precision than one second"), strings.Contains(m, "too far in the future"):
-		return "err pre"
+	case strings.Contains(m, "block check aux pow failed"):
+		return "err auxpow"
+	case strings.Contains(m, "block check proof of work failed"):
+		return "err pow"
+	case strings.Contains(m, "higher precision than one second"), strings.Contains(m, "too far in the future"):
+		return "err time"
 	case strings.Contains(m, "does not contain any transactions"):
 		return "err no-tx"
-	case strings.Contains(m, "too many"), strings.Contains(m, "is too big"):
-		return "err size"
+	case strings.Contains(m, "block contains too many"):
+		return "err too-many"
+	case strings.Contains(m, "block header is too big"):
+		return "err hdr-big"
+	case strings.Contains(m, "serialized block is too big"):
+		return "err blk-big"
 	case strings.Contains(m, "first transaction in block is not a coinbase"):
 		return "err first-not-coinbase"
 	case strings.Contains(m, "block contains second coinbase"):
@@ -382,6 +386,85 @@ func runOrphan(depth, k int, mut string) orphanRun {
 	return orphanRun{desc, fmt.Sprintf("%s tip=%d bound=%d", out, h, ok)}
 }
 
+// specialTx builds a transaction of the announced type with the announced payload keys
+// (rs | ot | ws:ok:h1;h2 | rp:ok:owner:node | up:ok:owner:node | cp:ok:owner | rc:ok:cid | uc:ok:cid | xc:ok:cid);
+// ok=0 gives the transaction a payload of another Go type.
+func specialTx(d string) interfaces.Transaction {
+	f := strings.Split(d, ":")
+	mk := func(tt common2.TxType, p interfaces.Payload) interfaces.Transaction {
+		return functions.CreateTransaction(common2.TxVersion09, tt, 0, p, nil, nil, nil, 0, nil)
+	}
+	cid := func(s string) (u common.Uint168) { copy(u[:], hx.UnHex(s)); return }
+	wrong := &payload.RecordSponsor{}
+	switch f[0] {
+	case "rs":
+		return mk(common2.RecordSponsor, &payload.RecordSponsor{Sponsor: []byte{1}})
+	case "ot":
+		return mk(common2.TransferAsset, &payload.TransferAsset{})
+	case "ws":
+		if f[1] != "1" {
+			return mk(common2.WithdrawFromSideChain, wrong)
+		}
+		p := &payload.WithdrawFromSideChain{}
+		if f[2] != "-" {
+			for _, h := range strings.Split(f[2], ";") {
+				var u common.Uint256
+				copy(u[:], hx.UnHex(h))
+				p.SideChainTransactionHashes = append(p.SideChainTransactionHashes, u)
+			}
+		}
+		return mk(common2.WithdrawFromSideChain, p)
+	case "rp", "up":
+		tt := common2.RegisterProducer
+		if f[0] == "up" {
+			tt = common2.UpdateProducer
+		}
+		if f[1] != "1" {
+			return mk(tt, wrong)
+		}
+		return mk(tt, &payload.ProducerInfo{OwnerKey: hx.UnHex(f[2]), NodePublicKey: hx.UnHex(f[3])})
+	case "cp":
+		if f[1] != "1" {
+			return mk(common2.CancelProducer, wrong)
+		}
+		return mk(common2.CancelProducer, &payload.ProcessProducer{OwnerKey: hx.UnHex(f[2])})
+	case "rc", "uc":
+		tt := common2.RegisterCR
+		if f[0] == "uc" {
+			tt = common2.UpdateCR
+		}
+		if f[1] != "1" {
+			return mk(tt, wrong)
+		}
+		return mk(tt, &payload.CRInfo{CID: cid(f[2])})
+	case "xc":
+		if f[1] != "1" {
+			return mk(common2.UnregisterCR, wrong)
+		}
+		return mk(common2.UnregisterCR, &payload.UnregisterCR{CID: cid(f[2])})
+	}
+	panic("harness: bad special tx " + d)
+}
+
+func classifyDup(err error) string {
+	if err == nil {
+		return "ok"
+	}
+	m := err.Error()
+	for _, c := range [][2]string{
+		{"duplicate record sponsor", "dup-sponsor"}, {"duplicate sidechain Tx", "dup-side"},
+		{"invalid register producer payload", "bad-reg-producer"}, {"invalid update producer payload", "bad-upd-producer"},
+		{"invalid cancel producer payload", "bad-cancel-producer"}, {"duplicate producer node", "dup-node"},
+		{"duplicate producer", "dup-producer"}, {"invalid register CR payload", "bad-reg-cr"},
+		{"invalid update CR payload", "bad-upd-cr"}, {"invalid unregister CR payload", "bad-unreg-cr"},
+		{"duplicate CR", "dup-cr"}} {
+		if strings.Contains(m, c[0]) {
+			return "err " + c[1]
+		}
+	}
+	return "err other:" + m
+}
+
 func atoi(s string) int {
 	v := 0
 	for _, c := range s {
@@ -416,6 +499,12 @@ func exec(t []string) string {
 			return "oracle-mismatch"
 		}
 		return classify(c.CheckBlockSanity(b))
+	case "duptx":
+		blk := &types.Block{}
+		for _, d := range t[1:] {
+			blk.Transactions = append(blk.Transactions, specialTx(d))
+		}
+		return classifyDup(blockchain.CheckDuplicateTx(blk))
 	case "orphan":
 		depth, k := atoi(t[1]), atoi(t[2])
 		run := runOrphan(depth, k, t[3])
@@ -467,7 +556,11 @@ func freshInputless(r *hx.Rand) interfaces.Transaction {
 }
 
 // seal computes the merkle root, attaches a fresh aux pow and solves it.
-func seal(b *types.Block) {
+func seal(b *types.Block) { sealWith(b, true, nil) }
+
+// sealWith: solved = false leaves a parent nonce that misses the target (aux pow valid, proof of work not);
+// parBranch puts the parent coinbase under a (long) parent merkle branch, which makes the header big.
+func sealWith(b *types.Block, solved bool, parBranch []common.Uint256) {
 	ids := make([]common.Uint256, 0, len(b.Transactions))
 	for _, tx := range b.Transactions {
 		ids = append(ids, tx.Hash())
@@ -479,10 +572,14 @@ func seal(b *types.Block) {
 	b.Header.Bits = 0x207fffff
 	ap := auxpow.GenerateAuxPow(b.Header.Hash())
 	ap.ParBlockHeader.Timestamp = b.Header.Timestamp
+	if parBranch != nil {
+		ap.ParCoinBaseMerkle = parBranch
+		ap.ParBlockHeader.MerkleRoot = auxpow.GetMerkleRoot(ap.ParCoinbaseTx.Hash(), parBranch, 0)
+	}
 	b.Header.AuxPow = *ap
 	for n := uint32(0); ; n++ {
 		b.Header.AuxPow.ParBlockHeader.Nonce = n
-		if blockchain.CheckProofOfWork(&b.Header, params.PowConfiguration.PowLimit) == nil {
+		if (blockchain.CheckProofOfWork(&b.Header, params.PowConfiguration.PowLimit) == nil) == solved {
 			return
 		}
 	}
@@ -576,12 +673,103 @@ func gen(g *hx.Gen) {
 		g.Emit("orphan %d %d %s %s", depth, k, mut, run.desc)
 	}
 
+	// ---- CheckDuplicateTx on its own: every transaction type with a per-block unique payload key
+	keyPool := []string{"02aa", "02bb", "03cc", "02dd", "03ee"}
+	cidPool := []string{"67" + strings.Repeat("11", 20), "67" + strings.Repeat("22", 20), "67" + strings.Repeat("33", 20)}
+	sidePool := []string{strings.Repeat("a1", 32), strings.Repeat("b2", 32), strings.Repeat("c3", 32), strings.Repeat("d4", 32)}
+	for i := 0; i < g.N(400, 6000); i++ {
+		n := 1 + r.Intn(7)
+		ds := make([]string, n)
+		for j := range ds {
+			ok := "1"
+			if r.Chance(4) {
+				ok = "0"
+			}
+			k1, k2 := keyPool[r.Intn(len(keyPool))], keyPool[r.Intn(len(keyPool))]
+			switch r.Intn(10) {
+			case 0:
+				ds[j] = "rs"
+			case 1:
+				ds[j] = "ot"
+			case 2:
+				hs := []string{}
+				for q := r.Intn(4); q > 0; q-- {
+					hs = append(hs, sidePool[r.Intn(len(sidePool))])
+				}
+				h := "-"
+				if len(hs) > 0 {
+					h = strings.Join(hs, ";")
+				}
+				ds[j] = "ws:" + ok + ":" + h
+			case 3, 4:
+				ds[j] = "rp:" + ok + ":" + k1 + ":" + k2
+			case 5:
+				ds[j] = "up:" + ok + ":" + k1 + ":" + k2
+			case 6:
+				ds[j] = "cp:" + ok + ":" + k1
+			case 7:
+				ds[j] = "rc:" + ok + ":" + cidPool[r.Intn(len(cidPool))]
+			case 8:
+				ds[j] = "uc:" + ok + ":" + cidPool[r.Intn(len(cidPool))]
+			default:
+				ds[j] = "xc:" + ok + ":" + cidPool[r.Intn(len(cidPool))]
+			}
+		}
+		g.Emit("duptx %s", strings.Join(ds, " "))
+	}
+
 	// ---- CheckBlockSanity
 	c := getChain()
 	_ = c
 	fixture := decodeBlock(fixtureBlockHex)
 	emitSanity(g, fixture)
 	cbT, trT := fixture.Transactions[0], fixture.Transactions[1]
+	{
+		// header clauses: unsolved proof of work, timestamp far in the future, and the size clauses:
+		// MaxTxPerBlock and MaxTxPerBlock+1 transactions, a header above MaxBlockHeaderSize
+		base := []interfaces.Transaction{cloneTx(cbT), freshInputless(r), freshTransfer(r, trT, 1)}
+		nb := withTxs(fixture, base)
+		sealWith(nb, false, nil)
+		emitSanity(g, nb)
+		nb = withTxs(fixture, base)
+		nb.Header.Timestamp = 4102444800 // 2100-01-01
+		seal(nb)
+		emitSanity(g, nb)
+		nb = withTxs(fixture, base)
+		sealWith(nb, true, make([]common.Uint256, 31300)) // 31300*32 bytes of parent branch > 1 000 000
+		emitSanity(g, nb)
+		nb = withTxs(fixture, base)
+		sealWith(nb, true, make([]common.Uint256, 31000))
+		emitSanity(g, nb)
+		for _, cnt := range []int{10000, 10001} {
+			if g.Quick() && cnt == 10000 {
+				continue
+			}
+			txs := []interfaces.Transaction{cloneTx(cbT)}
+			for len(txs) < cnt {
+				txs = append(txs, freshInputless(r))
+			}
+			nb = withTxs(fixture, txs)
+			seal(nb)
+			emitSanity(g, nb)
+		}
+		if !g.Quick() { // a block above MaxBlockContextSize+MaxBlockHeaderSize
+			txs := []interfaces.Transaction{cloneTx(cbT)}
+			big := freshTransfer(r, trT, 1)
+			outs := big.Outputs()
+			for len(outs) < 40 {
+				outs = append(outs, outs[0])
+			}
+			for len(txs) < 3200 {
+				t2 := freshTransfer(r, trT, 1)
+				t2.SetOutputs(outs)
+				txs = append(txs, cloneTx(t2))
+			}
+			nb = withTxs(fixture, txs)
+			seal(nb)
+			emitSanity(g, nb)
+		}
+	}
 	nblocks := g.N(25, 250)
 	for i := 0; i < nblocks; i++ {
 		n := 1 + r.Intn(9)
@@ -786,6 +974,45 @@ func oracle(t []string, out string) *hx.Violation {
 		if out != want {
 			return &hx.Violation{Kind: "root-differs", Detail: "ComputeRoot differs from the reference definition " + want}
 		}
+	case "duptx":
+		// accepted ⇒ no key of any class occurs twice, at most one record-sponsor tx, every payload well typed
+		if out != "ok" {
+			return nil
+		}
+		seen := map[string]bool{}
+		sponsors := 0
+		for _, d := range t[1:] {
+			f := strings.Split(d, ":")
+			var keys []string
+			switch f[0] {
+			case "rs":
+				sponsors++
+			case "ws":
+				if f[2] != "-" {
+					for _, h := range strings.Split(f[2], ";") {
+						keys = append(keys, "side/"+h)
+					}
+				}
+			case "rp", "up":
+				keys = []string{"owner/" + f[2], "node/" + f[3]}
+			case "cp":
+				keys = []string{"owner/" + f[2]}
+			case "rc", "uc", "xc":
+				keys = []string{"cr/" + f[2]}
+			}
+			if len(f) > 1 && f[1] != "1" {
+				return &hx.Violation{Kind: "duptx-bad-payload-accepted", Detail: "a transaction whose payload has the wrong type passed CheckDuplicateTx"}
+			}
+			for _, k := range keys {
+				if seen[k] {
+					return &hx.Violation{Kind: "duptx-duplicate-accepted", Detail: "CheckDuplicateTx accepted a block in which " + k + " occurs twice"}
+				}
+				seen[k] = true
+			}
+		}
+		if sponsors > 1 {
+			return &hx.Violation{Kind: "duptx-duplicate-accepted", Detail: "two record-sponsor transactions accepted"}
+		}
 	case "orphan":
 		if strings.Contains(out, "panic") {
 			return &hx.Violation{Kind: "node-panic-on-out-of-order-block", Detail: "ProcessBlock panicked while connecting a block that was pooled as an orphan"}
@@ -854,7 +1081,7 @@ func refRoot(hs []common.Uint256) []byte {
 }
 
 func nontrivial(t []string, out string) bool {
-	if t[0] == "orphan" {
+	if t[0] == "orphan" || t[0] == "duptx" {
 		return true
 	}
 	if t[0] == "root" {
@@ -878,6 +1105,9 @@ func bucket(t []string, out string) string {
 	}
 	if t[0] == "orphan" {
 		return "orphan/" + t[3] + "/" + strings.Fields(out)[0]
+	}
+	if t[0] == "duptx" {
+		return "duptx/" + out
 	}
 	return "sanity/" + out
 }
